@@ -823,7 +823,8 @@ package godi
 //@   safety off
 //
 // a declared dependency that resolution will be able to satisfy (or is allowed to miss)
-//@ pred depRegistered(sc *collection, dep *reflection.Dependency) = dep.Optional || dep.Group != "" || (dep.Type in reservedTypes) || (mk("TypeKey", dep.Type, dep.Key) in sc.services)
+// (resolution provides the built-in types only for unkeyed requests: scope.resolve#post[builtins_short_circuit])
+//@ pred depRegistered(sc *collection, dep *reflection.Dependency) = dep.Optional || dep.Group != "" || (dep.Key == nil && (dep.Type in reservedTypes)) || (mk("TypeKey", dep.Type, dep.Key) in sc.services)
 //@ func collection.validateDependencies
 //@   safety[C15,C08]
 //@   requires maps: regmaps(c)
